@@ -6,7 +6,7 @@
 Require Extraction.
 Require Import ExtrOcamlBasic.
 From SwiftMT Require Import Base.Bytes Dispatch.Model Dispatch.Facts Dispatch.Instance.
-From SwiftMT Require Import Dates.DateTime Num.Amount.
+From SwiftMT Require Import Dates.DateTime Num.Amount Classify.Model.
 From SwiftMT Require Import Base.StrOps Engine.Layout Engine.Tokens Engine.Extract Engine.Instance.
 
 Extraction "swiftmt_model.ml"
@@ -16,4 +16,5 @@ Extraction "swiftmt_model.ml"
   Engine.Extract.brun Engine.Tokens.trun Engine.Instance.layout_of Engine.Extract.extract_field_content
   Engine.Extract.b_detect Engine.Extract.b_complete
   Dates.DateTime.date_of Dates.DateTime.parse_time_hhmm Dates.DateTime.offset_ok Dates.DateTime.format_yymmdd Dates.DateTime.format_hhmm
-  Num.Amount.parse_amount Num.Amount.parse_amount_dec Num.Amount.to_bits Num.Amount.format_amount Num.Amount.to_dec.
+  Num.Amount.parse_amount Num.Amount.parse_amount_dec Num.Amount.to_bits Num.Amount.format_amount Num.Amount.to_dec
+  Classify.Model.has_reject Classify.Model.has_return Classify.Model.is_cover Classify.Model.plugin_method.
